@@ -1,9 +1,11 @@
 //! C16 contract of watch_membership_changes, class B: two consecutive snapshots over the id
 //! universe {0 = self, 1, 2}; the first is ARBITRARY within the bound (so the second iteration is the step
-//! prev -> cur from an arbitrary previous state). WHO is present in which snapshot is concrete per harness
-//! (16 presence patterns of the two other nodes: `mb_step_<p1><p2><c1><c2>`), everything else is symbolic:
-//! each present member has one of THREE addresses from a shared pool (address change, and an address
-//! taken over by another node id, are covered; members of one snapshot have distinct addresses) and one of two data centres.
+//! prev -> cur from an arbitrary previous state). WHO is present and at WHICH address is concrete per harness
+//! (`mb_step_<p1><p2>_<c1><c2>`: per snapshot and node '0' = absent, '1'..'3' = present at that address of a shared pool; members
+//! of one snapshot have distinct addresses; the previous snapshot uses addresses canonically (first node present gets 1, the second 2),
+//! the current one every assignment over three addresses: 4 x 13 = 52 transitions, so address changes, swaps and an address taken
+//! over by ANOTHER node id are all covered). The data centre of every member (2 names) is symbolic. Symbolic map KEYS are what makes
+//! CBMC expensive here (a transition with symbolic addresses: 300-730 s; concrete: 30-60 s), hence the split.
 //!   joined(prev,cur) = members of cur (other than self) whose (id, addr) is not in prev, as in cur
 //!   left(prev,cur)   = members of prev (other than self) whose (id, addr) is not in cur, AS IN PREV
 //!   set_nodes gets exactly the data-centre layout of cur; every departed address that nobody uses any more is
@@ -25,22 +27,18 @@ struct AbsMember {
 type AbsSnap = [AbsMember; NID];
 const ABSENT: AbsMember = AbsMember { present: false, addr: 0, dc: 0 };
 
-/// a snapshot with the given (concrete) presence of nodes 1 and 2; self is always a member; addresses and data centres arbitrary
-fn any_snap(p1: bool, p2: bool) -> AbsSnap {
-    let present = [true, p1, p2];
+/// a snapshot with the given (concrete) addresses of nodes 1 and 2 (0 = absent); self is always a member at address 0; data centres arbitrary
+fn snap(a1: u8, a2: u8) -> AbsSnap {
+    let addrs = [Some(0u8), if a1 == 0 { None } else { Some(a1) }, if a2 == 0 { None } else { Some(a2) }];
     let mut s = [ABSENT; NID];
     let mut i = 0;
     while i < NID {
-        if present[i] {
-            s[i] = AbsMember { present: true, addr: kani::any(), dc: kani::any() };
-            kani::assume(s[i].dc < 2 && s[i].addr < 3);
+        if let Some(a) = addrs[i] {
+            s[i] = AbsMember { present: true, addr: a, dc: kani::any() };
+            kani::assume(s[i].dc < 2);
         }
         i += 1;
     }
-    // live members of one snapshot do not share an address
-    kani::assume(!(s[0].present && s[1].present && s[0].addr == s[1].addr));
-    kani::assume(!(s[0].present && s[2].present && s[0].addr == s[2].addr));
-    kani::assume(!(s[1].present && s[2].present && s[1].addr == s[2].addr));
     s
 }
 fn addr_of(a: u8) -> SocketAddr {
@@ -98,16 +96,20 @@ fn check_delta(d: &MembershipChange, prev: &AbsSnap, cur: &AbsSnap) {
     assert!(d.joined.len() == nj && d.left.len() == nl, "nothing else is reported");
 }
 
-fn delta_step(pp1: bool, pp2: bool, cp1: bool, cp2: bool) {
-    let prev = any_snap(pp1, pp2);
-    let cur = any_snap(cp1, cp2);
+fn delta_step(p1: u8, p2: u8, c1: u8, c2: u8) {
+    let prev = snap(p1, p2);
+    let cur = snap(c1, c2);
+    delta_case(prev, cur);
+}
+fn delta_case(prev: AbsSnap, cur: AbsSnap) {
     let mut items = Vec::new();
     items.push(build(&prev));
     items.push(build(&cur));
-    let network = RpcNetwork::new();
-    let selector = NodeSelectorHandle::new();
-    let stats = ClusterStatistics::new();
-    let tx = watch::Sender::<MembershipChange>::new();
+    let (net_log, lay_log, stat_cell, chan) = (DisconnectLog::new(Vec::new()), LayoutLog::new(), ClusterStatisticsInner::new(), watch::SenderInner::<MembershipChange>::new());
+    let network = RpcNetwork::on(&net_log);
+    let selector = NodeSelectorHandle::on(&lay_log);
+    let stats = ClusterStatistics::on(&stat_cell);
+    let tx = watch::Sender::on(&chan);
     watch_membership_changes(SELF_ID, network.clone(), selector.clone(), stats.clone(), WatchStream::from_items(items), tx.clone());
     let log = tx.log();
     assert!(log.len() == 2, "one change event per snapshot");
@@ -153,9 +155,8 @@ fn delta_step(pp1: bool, pp2: bool, cp1: bool, cp2: bool) {
     }
 
     // set_nodes receives exactly the data-centre layout of cur (second call)
-    let layouts = selector.log();
-    assert!(layouts.len() == 2);
-    let lay = &layouts[1];
+    assert!(selector.calls() == 2, "the selector is told the layout once per snapshot");
+    let lay = selector.last().unwrap();
     let mut d = 0;
     let mut ndc = 0;
     while d < 2 {
@@ -177,15 +178,11 @@ fn delta_step(pp1: bool, pp2: bool, cp1: bool, cp2: bool) {
         d += 1;
     }
     assert!(lay.len() == ndc, "no stale data centre in the layout");
-    // vacuity guards, per presence pattern
-    kani::cover!(true, "pattern reachable");
-    if pp1 && cp1 {
-        kani::cover!(prev[1].addr != cur[1].addr, "address change");
-        kani::cover!(prev[1].addr == cur[1].addr && prev[1].dc != cur[1].dc, "data centre change only");
-    }
-    if pp1 && !cp1 && cp2 && !pp2 {
-        kani::cover!(prev[1].addr == cur[2].addr, "a departed node's address is taken over by a node that joins");
-    }
+    // vacuity guards (per transition: a clause that does not apply to this transition is trivially covered)
+    kani::cover!(true, "transition reachable");
+    let both1 = prev[1].present && cur[1].present && prev[1].addr == cur[1].addr;
+    kani::cover!(!both1 || prev[1].dc != cur[1].dc, "data centre change only");
+    kani::cover!(!(cur[1].present && cur[2].present) || cur[1].dc != cur[2].dc, "two data centres in one layout");
 }
 
 macro_rules! step_harness {
@@ -197,23 +194,59 @@ macro_rules! step_harness {
         }
     };
 }
-// mb_step_<prev1><prev2><cur1><cur2>: presence of nodes 1 and 2 in the previous and the current snapshot
-step_harness!(mb_step_0000, false, false, false, false);
-step_harness!(mb_step_0001, false, false, false, true);
-step_harness!(mb_step_0010, false, false, true, false);
-step_harness!(mb_step_0011, false, false, true, true);
-step_harness!(mb_step_0100, false, true, false, false);
-step_harness!(mb_step_0101, false, true, false, true);
-step_harness!(mb_step_0110, false, true, true, false);
-step_harness!(mb_step_0111, false, true, true, true);
-step_harness!(mb_step_1000, true, false, false, false);
-step_harness!(mb_step_1001, true, false, false, true);
-step_harness!(mb_step_1010, true, false, true, false);
-step_harness!(mb_step_1011, true, false, true, true);
-step_harness!(mb_step_1100, true, true, false, false);
-step_harness!(mb_step_1101, true, true, false, true);
-step_harness!(mb_step_1110, true, true, true, false);
-step_harness!(mb_step_1111, true, true, true, true);
+// mb_step_<p1><p2>_<c1><c2>: address of node 1 / node 2 in the previous and the current snapshot (0 = absent)
+step_harness!(mb_step_00_00, 0, 0, 0, 0);
+step_harness!(mb_step_00_01, 0, 0, 0, 1);
+step_harness!(mb_step_00_02, 0, 0, 0, 2);
+step_harness!(mb_step_00_03, 0, 0, 0, 3);
+step_harness!(mb_step_00_10, 0, 0, 1, 0);
+step_harness!(mb_step_00_12, 0, 0, 1, 2);
+step_harness!(mb_step_00_13, 0, 0, 1, 3);
+step_harness!(mb_step_00_20, 0, 0, 2, 0);
+step_harness!(mb_step_00_21, 0, 0, 2, 1);
+step_harness!(mb_step_00_23, 0, 0, 2, 3);
+step_harness!(mb_step_00_30, 0, 0, 3, 0);
+step_harness!(mb_step_00_31, 0, 0, 3, 1);
+step_harness!(mb_step_00_32, 0, 0, 3, 2);
+step_harness!(mb_step_10_00, 1, 0, 0, 0);
+step_harness!(mb_step_10_01, 1, 0, 0, 1);
+step_harness!(mb_step_10_02, 1, 0, 0, 2);
+step_harness!(mb_step_10_03, 1, 0, 0, 3);
+step_harness!(mb_step_10_10, 1, 0, 1, 0);
+step_harness!(mb_step_10_12, 1, 0, 1, 2);
+step_harness!(mb_step_10_13, 1, 0, 1, 3);
+step_harness!(mb_step_10_20, 1, 0, 2, 0);
+step_harness!(mb_step_10_21, 1, 0, 2, 1);
+step_harness!(mb_step_10_23, 1, 0, 2, 3);
+step_harness!(mb_step_10_30, 1, 0, 3, 0);
+step_harness!(mb_step_10_31, 1, 0, 3, 1);
+step_harness!(mb_step_10_32, 1, 0, 3, 2);
+step_harness!(mb_step_01_00, 0, 1, 0, 0);
+step_harness!(mb_step_01_01, 0, 1, 0, 1);
+step_harness!(mb_step_01_02, 0, 1, 0, 2);
+step_harness!(mb_step_01_03, 0, 1, 0, 3);
+step_harness!(mb_step_01_10, 0, 1, 1, 0);
+step_harness!(mb_step_01_12, 0, 1, 1, 2);
+step_harness!(mb_step_01_13, 0, 1, 1, 3);
+step_harness!(mb_step_01_20, 0, 1, 2, 0);
+step_harness!(mb_step_01_21, 0, 1, 2, 1);
+step_harness!(mb_step_01_23, 0, 1, 2, 3);
+step_harness!(mb_step_01_30, 0, 1, 3, 0);
+step_harness!(mb_step_01_31, 0, 1, 3, 1);
+step_harness!(mb_step_01_32, 0, 1, 3, 2);
+step_harness!(mb_step_12_00, 1, 2, 0, 0);
+step_harness!(mb_step_12_01, 1, 2, 0, 1);
+step_harness!(mb_step_12_02, 1, 2, 0, 2);
+step_harness!(mb_step_12_03, 1, 2, 0, 3);
+step_harness!(mb_step_12_10, 1, 2, 1, 0);
+step_harness!(mb_step_12_12, 1, 2, 1, 2);
+step_harness!(mb_step_12_13, 1, 2, 1, 3);
+step_harness!(mb_step_12_20, 1, 2, 2, 0);
+step_harness!(mb_step_12_21, 1, 2, 2, 1);
+step_harness!(mb_step_12_23, 1, 2, 2, 3);
+step_harness!(mb_step_12_30, 1, 2, 3, 0);
+step_harness!(mb_step_12_31, 1, 2, 3, 1);
+step_harness!(mb_step_12_32, 1, 2, 3, 2);
 
 /// D6 (KNOWN FINDING, see known_findings.txt): the deltas travel on a LATEST-VALUE channel (tokio::sync::watch). Concrete history:
 /// node 1 joins (first change), then a second snapshot with the same membership is processed before the subscriber reads.
@@ -229,10 +262,11 @@ fn mb_slow_subscriber() {
     let mut items = Vec::new();
     items.push(build(&snap));
     items.push(build(&snap));
-    let network = RpcNetwork::new();
-    let selector = NodeSelectorHandle::new();
-    let stats = ClusterStatistics::new();
-    let tx = watch::Sender::<MembershipChange>::new();
+    let (net_log, lay_log, stat_cell, chan) = (DisconnectLog::new(Vec::new()), LayoutLog::new(), ClusterStatisticsInner::new(), watch::SenderInner::<MembershipChange>::new());
+    let network = RpcNetwork::on(&net_log);
+    let selector = NodeSelectorHandle::on(&lay_log);
+    let stats = ClusterStatistics::on(&stat_cell);
+    let tx = watch::Sender::on(&chan);
     watch_membership_changes(SELF_ID, network.clone(), selector.clone(), stats.clone(), WatchStream::from_items(items), tx.clone());
     // what a receiver that reads now is handed: the latest value only
     let mut live: [Option<SocketAddr>; NID] = [None; NID];
